@@ -123,35 +123,31 @@ theorem bphp_wf (m n : Nat) : (bphpF m n).WF := by
 /-- documented variable count: `⌈log₂ holes⌉` bits per pigeon -/
 theorem bphp_nvars (m n : Nat) : (bphpF m n).nvars = m * Vars.clog2 n := rfl
 
-/-- parameter validation: both arguments must be positive -/
+/-- parameter validation: ValueError exactly for a negative argument (the documented contract) -/
 theorem bphp_validation (p h : Int) :
-    bphp p h = if p < 1 ∨ h < 1 then .error .valueError else .ok (bphpF p.toNat h.toNat) := by
-  unfold bphp
-  by_cases h1 : p < 0 ∨ h < 0
-  · have : p < 1 ∨ h < 1 := by omega
-    simp [h1, this]
-  · by_cases h2 : h < 1 ∨ p < 1
-    · have : p < 1 ∨ h < 1 := by omega
-      simp [h1, h2, this]
-    · have : ¬ (p < 1 ∨ h < 1) := by omega
-      simp [h1, h2, this]
+    bphp p h = if p < 0 ∨ h < 0 then .error .valueError else .ok (bphpF p.toNat h.toNat) := rfl
 
 /-- what the docstring promises: every non-negative pair of parameters yields a formula -/
 def BphpDocumentedDomain : Prop := ∀ p h : Int, 0 ≤ p → 0 ≤ h → ∃ F, bphp p h = .ok F
 
-/-- finding D37: the documented domain (`pigeons ≥ 0`, `holes ≥ 0`) is not the accepted one —
-zero pigeons (or holes) are rejected with `ValueError`; replayed on the real code by the corpus
-case `bphp 0 1` of the harness -/
-theorem bphp_zero_rejected : bphp 0 1 = .error .valueError ∧ ¬ BphpDocumentedDomain := by
-  refine ⟨rfl, fun h => ?_⟩
-  obtain ⟨F, hF⟩ := h 0 1 (by omega) (by omega)
-  cases hF
+/-- the documented domain (`pigeons ≥ 0`, `holes ≥ 0`) is the accepted one.  Before the fix of D42 the code refused
+zero pigeons and zero holes (`bphp 0 1` raised ValueError; the negation of this statement was proved here). -/
+theorem bphp_documented_domain : BphpDocumentedDomain := by
+  intro p h hp hh
+  refine ⟨bphpF p.toNat h.toNat, ?_⟩
+  rw [bphp_validation]
+  have : ¬ (p < 0 ∨ h < 0) := by omega
+  simp [this]
 
-/-- the accepted region, as an explicit hypothesis -/
-theorem bphp_domain_partial (p h : Int) (hp : 1 ≤ p) (hh : 1 ≤ h) :
+/-- regression witnesses of D42: no pigeons ⇒ the empty (satisfiable) formula; a pigeon and no hole ⇒ unsatisfiable -/
+example : bphp 0 1 = .ok ⟨0, []⟩ := by rfl
+example : ∃ F, bphp 1 0 = .ok F ∧ ¬ ∃ α, F.holds α = true :=
+  ⟨bphpF 1 0, rfl, by rw [bphp_sat_iff]; omega⟩
+
+theorem bphp_domain (p h : Int) (hp : 0 ≤ p) (hh : 0 ≤ h) :
     bphp p h = .ok (bphpF p.toNat h.toNat) := by
   rw [bphp_validation]
-  have : ¬ (p < 1 ∨ h < 1) := by omega
+  have : ¬ (p < 0 ∨ h < 0) := by omega
   simp [this]
 
 theorem bphp_cnf_spec (m n : Nat) (α : Assign) :
